@@ -293,9 +293,15 @@ func appendSetq(b []byte, s *slip.Scope, vv *slip.VarVal) (out []byte) {
 func ppValue(v slip.Object) (pv slip.Object) {
 	pv = v
 	switch tv := v.(type) {
+	case nil:
+		// nil is nil
 	case slip.List:
 		if 0 < len(tv) {
-			pv = slip.List{slip.Symbol("quote"), tv}
+			if isLiteral(tv) {
+				pv = slip.List{slip.Symbol("quote"), tv}
+			} else {
+				pv = slip.ValueLoadForm(tv)
+			}
 		}
 	case *slip.Package:
 		pv = slip.List{
@@ -309,8 +315,42 @@ func ppValue(v slip.Object) (pv slip.Object) {
 		}
 	case *flavors.Instance:
 		pv = ppInstance(tv)
+	case *slip.Vector:
+		if !isLiteral(tv) {
+			pv = slip.ValueLoadForm(tv)
+		}
+	default:
+		// A symbol has to be quoted and any other value is written as the
+		// form that builds it. This panics if there is no such form.
+		pv = slip.ValueLoadForm(v)
 	}
 	return
+}
+
+// isLiteral returns true if the value can be read back from its printed
+// representation, the elements of a list or vector included.
+func isLiteral(v slip.Object) bool {
+	switch tv := v.(type) {
+	case nil, slip.Symbol, slip.String, slip.Character, slip.Number:
+		return true
+	case slip.List:
+		for _, e := range tv {
+			if !isLiteral(e) {
+				return false
+			}
+		}
+		return true
+	case slip.Tail:
+		return isLiteral(tv.Value)
+	case *slip.Vector:
+		for _, e := range tv.AsList() {
+			if !isLiteral(e) {
+				return false
+			}
+		}
+		return true
+	}
+	return v == slip.True
 }
 
 func ppInstance(inst *flavors.Instance) slip.Object {
